@@ -871,7 +871,10 @@ impl ModulePath {
         // Relative path - resolve against base
         let base_dir = base.and_then(|b| b.parent()).unwrap_or("");
 
-        let combined = if base_dir.is_empty() {
+        // An importer directly under the root ("/main.ts") has the empty string as parent;
+        // its directory is still the root, so the result must stay absolute.
+        let base_is_absolute = base.is_some_and(|b| b.as_str().starts_with('/'));
+        let combined = if base_dir.is_empty() && !base_is_absolute {
             specifier.to_string()
         } else {
             format!("{}/{}", base_dir, specifier)
